@@ -66,7 +66,11 @@ def eval(
 
 def load(path: Union[str, DDSPath, pathlib.Path]) -> Any:
     path_ = DDSPathUtils.create(path)
-    key = _store().fetch_paths([path_]).get(path_)
+    # Within an evaluation, a path produced by this evaluation is served with the signature
+    # of this evaluation (it is only committed to the store at the end).
+    key = None if _eval_ctx is None else _eval_ctx.requested_paths.get(path_)
+    if key is None:
+        key = _store().fetch_paths([path_]).get(path_)
     if key is None:
         raise DDSException(f"The store {_store()} did not return path {path_}")
     else:
